@@ -22,6 +22,9 @@ def allValidators : List Validator := [vNull, vType, vSimple, vMulti, vVNode, vC
 def majorErrors : List String := ["GEOM TYPE MULTILINESTRING", "NULL GEOMETRY"]
 /-- strings the under/overlap validator reports -/
 def underlapStrings : List String := ["UNDERLAPPING SNAP", "OVERLAPPING SNAP", "STACKED TRACES"]
-def documentedErrors : List String := (allValidators.map (·.staticError)) ++ ["OVERLAPPING SNAP"]
+/-- the only exception to the normal procedure (docs_src/validation/errors.rst): an empty target area with
+`allow_empty_area=False` puts this string into all traces -/
+def emptyAreaError : String := "EMPTY TARGET AREA"
+def documentedErrors : List String := (allValidators.map (·.staticError)) ++ ["OVERLAPPING SNAP", emptyAreaError]
 
 end Spec
